@@ -19,11 +19,11 @@ Lemma calls_pending_new_ok : calls_pending_new =
 Proof. reflexivity. Qed.
 
 Lemma calls_pending_add_signal_ok : calls_pending_add_signal =
-  ["assert!"; "assert!"; "assert!"; ".supports_signal"; ".init"; ".store"; ".wake_readers"; "signal_hook_registry::register_sigaction"].
+  ["assert!"; "assert!"; "assert!"; ".supports_signal"; ".init"; ".store"; ".wake_readers"; "signal_hook_registry::register_sigaction"; "?"].
 Proof. reflexivity. Qed.
 
 Lemma calls_handle_add_signal_ok : calls_handle_add_signal =
-  [".lock"; ".unwrap_or_else"; ".is_some"; "Arc::clone"; ".add_signal"; "Arc::clone"].
+  [".lock"; ".unwrap_or_else"; ".is_some"; "return"; "Arc::clone"; ".add_signal"; "Arc::clone"; "?"].
 Proof. reflexivity. Qed.
 
 Lemma calls_close_ok : calls_close =
@@ -35,7 +35,7 @@ Lemma calls_is_closed_ok : calls_is_closed =
 Proof. reflexivity. Qed.
 
 Lemma calls_with_pipe_ok : calls_with_pipe =
-  ["Arc::new"; "PendingSignals::new"; "Arc::clone"; "Handle::new"; ".add_signal"; ".borrow"].
+  ["Arc::new"; "PendingSignals::new"; "Arc::clone"; "Handle::new"; ".add_signal"; ".borrow"; "?"].
 Proof. reflexivity. Qed.
 
 Lemma calls_flush_ok : calls_flush =
@@ -47,11 +47,11 @@ Lemma calls_pending_ok : calls_pending =
 Proof. reflexivity. Qed.
 
 Lemma calls_poll_pending_ok : calls_poll_pending =
-  [".is_closed"; "has_signals"; ".get_read_mut"; ".pending"].
+  [".is_closed"; "return"; "has_signals"; ".get_read_mut"; ".pending"].
 Proof. reflexivity. Qed.
 
 Lemma calls_pending_next_ok : calls_pending_next =
-  [".len"; ".load"; ".is_some"].
+  [".len"; ".load"; ".is_some"; "return"].
 Proof. reflexivity. Qed.
 
 Lemma calls_iterator_new_ok : calls_iterator_new =
@@ -59,11 +59,11 @@ Lemma calls_iterator_new_ok : calls_iterator_new =
 Proof. reflexivity. Qed.
 
 Lemma calls_poll_signal_ok : calls_poll_signal =
-  [".borrow_mut"; ".is_closed"; ".next"; "PollResult::Signal"; ".borrow_mut"; ".poll_pending"; ".borrow_mut"; ".is_closed"].
+  [".borrow_mut"; ".is_closed"; ".next"; "return"; "PollResult::Signal"; ".borrow_mut"; ".poll_pending"; ".borrow_mut"; ".is_closed"; "return"; "return"; "return"].
 Proof. reflexivity. Qed.
 
 Lemma calls_has_signals_ok : calls_has_signals =
-  [".read"; ".kind"].
+  [".read"; "break"; ".kind"; "break"].
 Proof. reflexivity. Qed.
 
 Lemma calls_wait_ok : calls_wait =
@@ -71,7 +71,7 @@ Lemma calls_wait_ok : calls_wait =
 Proof. reflexivity. Qed.
 
 Lemma calls_forever_next_ok : calls_forever_next =
-  [".poll_signal"; "PollResult::Signal"; "panic!"].
+  [".poll_signal"; "PollResult::Signal"; "break"; "break"; "continue"; "panic!"].
 Proof. reflexivity. Qed.
 
 Lemma calls_signalonly_store_ok : calls_signalonly_store =
@@ -91,7 +91,7 @@ Lemma calls_raw_load_ok : calls_raw_load =
 Proof. reflexivity. Qed.
 
 Lemma calls_raw_init_ok : calls_raw_init =
-  [".load"; ".is_null"; "Box::default"; ".swap"; "Box::into_raw"; "assert!"; ".is_null"].
+  [".load"; ".is_null"; "return"; "Box::default"; ".swap"; "Box::into_raw"; "assert!"; ".is_null"].
 Proof. reflexivity. Qed.
 
 Lemma calls_origin_store_ok : calls_origin_store =
